@@ -17,3 +17,16 @@ Lemma zero_ifid_has_a_solution :
   exists g, add_segments [] (input_segments (case_hid zero_ifid_case) [] [zero_ifid_segment]) = Ok g
             /\ length (get_paths ord_id_v ord_id_e g 2 1) = 1%nat.
 Proof. eexists; split; vm_compute; reflexivity. Qed.
+
+(** C04, repaired: an AS-internal MTU of 65536 (the field is a u32) was truncated by
+    [as_entry.mtu as u16] to 0, so every path through that AS was reported with MTU 0
+    (replayed on the real code by the harness, directed case d8:as_mtu_65536); the repaired code
+    -- the one modelled -- saturates at 65535, and the link MTU 1400 decides. *)
+Definition big_mtu_case : ccase :=
+  mkCase 2 3 []
+    [mkSeg 1700000000 7 [mkAE 1 2 65536 0 (mkHF 63 0 1 11) []; mkAE 2 0 1500 1400 (mkHF 63 1 0 12) []];
+     mkSeg 1700000000 9 [mkAE 1 3 65536 0 (mkHF 63 0 2 13) []; mkAE 3 0 1500 1400 (mkHF 63 1 0 14) []]]
+    [5; 6] true false true [] [].
+Lemma big_as_mtu_does_not_zero_the_path_mtu :
+  option_map (map o_mtu) (match model_run big_mtu_case with Ok l => Some (map obs_path l) | _ => None end) = Some [1400].
+Proof. vm_compute. reflexivity. Qed.
